@@ -28,6 +28,7 @@ def gen_text(rng, malformed):
     lines = rng.choice([0, 1, 2, 5, 12])
     ids = [rng.getrandbits(32) for _ in range(3)] + [0, 0xffffffff, 0x40c0548]
     out = []
+    built = []
     for _ in range(lines):
         n = rng.choice(ids)
         digits = format(n, 'x')
@@ -56,6 +57,13 @@ def gen_text(rng, malformed):
             elif r < 0.8:
                 line = sep + [ord(c) for c in tok] + sep + name + term           # leading whitespace (still fine)
         out += line
+        built.append(line)
+        if not malformed and len(built) >= 2 and rng.random() < 0.25:
+            # an identical copy of an earlier line after other lines for the same id: the LAST line still wins
+            again = rng.choice(built[:-1])
+            if again[-1] in LB:
+                out += again
+                built.append(again)
     if out and rng.random() < 0.3:
         # last line without terminator
         while out and out[-1] in LB:
@@ -175,16 +183,32 @@ def run(ctx, model_ok):
         api.append((table, hist, kind, D.build_v2([(1, 1, b'p')], 0, recs)))
     cfg = {'show_timestamp': False, 'show_func_qual': False, 'show_tid': False, 'show_process': False, 'show_args': False,
            'color': False}
+    # ... then the caller edits the same table object in place (another table of an earlier case) and lists again on the
+    # same parser object: the listing follows the table as it is now
+    tables2 = [api[(i + 1) % len(api)][0] for i in range(len(api))]
     ares = vlib.run_impl('run_api.py', {'cases': [{'file': f.hex(), 'table': sorted(t.items()), 'cfg': cfg,
-                                                   'calls': ['traces', 'formatted_kevents']} for t, _, _, f in api]})['results']
+                                                   'calls': ['traces', 'formatted_kevents', {'set_table': sorted(t2.items())},
+                                                             'formatted_kevents']}
+                                                  for (t, _, _, f), t2 in zip(api, tables2)]})['results']
     ctx.evaluations += k
+    api_i = 0
     for (table, hist, kind, f), calls in zip(api, ares):
         ctx.count('api-table:' + kind)
         u2 = pc.Universe.__new__(pc.Universe)
         u2.__dict__.update(uni.__dict__)
         u2.codes = table
         exp = [w for w in pc.spec_outputs(hist, u2) if w is not None]
-        tr, fk = calls
+        tr, fk, _st, fk2 = calls
+        t2 = tables2[api_i]
+        api_i += 1
+        exp_names2 = [(t2[c] + f' ({hex(c)})') if c in t2 else hex(c) for _, c, _, _ in hist]
+        if fk2['err'] or [ln.rstrip(' ') for ln in fk2['items']] != exp_names2:
+            ctx.failing.append({'input': {'table': sorted(t2.items()), 'history': hist, 'api': True,
+                                          'earlier_table_same_object_edited_in_place': sorted(table.items())},
+                                'expected': {'name_column': exp_names2},
+                                'actual': {'name_column': [ln.rstrip(' ') for ln in fk2['items']], 'err': fk2['err']},
+                                'why': 'listing does not use the caller-supplied table as it is now (the table object was edited '
+                                       'in place between two listings on one parser object)'})
         got_heads = [it[1] - 1 for it in tr['items']]
         exp_names = [(table[c] + f' ({hex(c)})') if c in table else hex(c) for _, c, _, _ in hist]
         got_names = [ln.rstrip(' ') for ln in fk['items']]
